@@ -160,3 +160,84 @@ Proof.
   - destruct (getitem_rows_empty parts it Hi) as [-> ->]. reflexivity.
 Qed.
 End EmptyDerived.
+
+(* ---------------------------------------------------------------------------------------- *)
+(* the carried column count IS shape[1]: every row of every block has exactly a_nc entries    *)
+(* ---------------------------------------------------------------------------------------- *)
+Section Shape.
+Context {A D : Type}.
+Variable sem : code -> D -> A -> option A.
+Variable dsem : code -> D -> option D.
+
+Definition wf (X : arr A D) : Prop := Forall (fun r => zlen r = a_nc X) (a_rows X).
+
+Lemma mapM_Forall_out {X Y} (f : X -> option Y) (Q : Y -> Prop) l out :
+  (forall x y, In x l -> f x = Some y -> Q y) -> mapM f l = Some out -> Forall Q out.
+Proof.
+  revert out; induction l as [|x r IH]; intros out Hq H.
+  - injection H as <-. constructor.
+  - rewrite mapM_cons in H. destruct (f x) as [y|] eqn:Ey; [|discriminate].
+    destruct (mapM f r) as [ys|] eqn:Er; [|discriminate]. injection H as <-. constructor.
+    + apply (Hq x y); [left; reflexivity|exact Ey].
+    + apply IH; [|reflexivity]. intros x' y' Hin. apply Hq. right. exact Hin.
+Qed.
+
+Lemma pick_In {X} (M : list X) i x : pick M i = Some x -> In x M.
+Proof. unfold pick. destruct (i <? 0); [discriminate|]. apply nth_error_In. Qed.
+
+Lemma np_index_Forall {X} (P : X -> Prop) (M R : list X) it :
+  Forall P M -> np_index M it = Some R -> Forall P R.
+Proof.
+  intros HP. unfold np_index. destruct (row_indices (zlen M) it) as [idx|]; [|discriminate]. cbn [bind].
+  unfold gather. apply mapM_Forall_out. intros i x _ Hp. rewrite Forall_forall in HP. apply HP.
+  eapply pick_In. exact Hp.
+Qed.
+
+Lemma apply_op_wf (o : op) (X X' : arr A D) : wf X -> apply_op sem dsem o X = Some X' -> wf X'.
+Proof.
+  destruct X as [dt nc rws]. unfold wf; cbn [a_nc a_rows]. intros Hwf.
+  destruct o as [c|sel]; cbn [Model.apply_op].
+  - unfold np_map; cbn [a_dt a_nc a_rows]. destruct (dsem c dt); [|discriminate].
+    destruct (mapM (mapM (sem c dt)) rws) as [rws'|] eqn:Em; [|discriminate].
+    intros H; injection H as <-. cbn [a_nc a_rows].
+    eapply mapM_Forall_out; [|exact Em]. intros r r' Hin Hr. cbv beta.
+    rewrite (zlen_mapM _ _ _ Hr). rewrite Forall_forall in Hwf. exact (Hwf r Hin).
+  - unfold np_cols; cbn [a_dt a_nc a_rows]. destruct (col_indices nc sel) as [idx|]; [|discriminate]. cbn [bind].
+    destruct (mapM (fun row => gather row idx) rws) as [rws'|] eqn:Em; [|discriminate].
+    intros H; injection H as <-. cbn [a_nc a_rows].
+    eapply mapM_Forall_out; [|exact Em]. intros r r' _ Hr. cbv beta. unfold gather in Hr.
+    eapply zlen_mapM. exact Hr.
+Qed.
+
+Lemma apply_ops_wf (ops : list op) : forall (X E : arr A D), wf X -> apply_ops sem dsem ops X = Some E -> wf E.
+Proof.
+  induction ops as [|o r IH]; intros X E Hwf H; cbn [Model.apply_ops] in H.
+  - injection H as <-. exact Hwf.
+  - destruct (apply_op sem dsem o X) as [X1|] eqn:E1; [|discriminate]. cbn [bind] in H.
+    eapply IH; [|exact H]. eapply apply_op_wf; eassumption.
+Qed.
+
+Lemma index_arr_wf (X R : arr A D) it : wf X -> index_arr X it = Some R -> wf R.
+Proof.
+  unfold index_arr, wf. destruct (np_index (a_rows X) it) as [rws|] eqn:Ei; [|discriminate].
+  intros Hwf H; injection H as <-. cbn [a_nc a_rows]. eapply np_index_Forall; eassumption.
+Qed.
+
+(* whatever a reader returns -- empty or not, through any deferred operations and any trailing column
+   selector -- is a well-formed (k, a_nc) block, provided the base reader hands out rows of c0 entries *)
+Lemma reader_getitem_wf (rows : item -> option (list (list A))) (d0 : D) (c0 : Z) ops it cols x :
+  (forall R, rows it = Some R -> Forall (fun r => zlen r = c0) R) ->
+  reader_getitem sem dsem rows d0 c0 ops it cols = Some (GRows x) -> wf x.
+Proof.
+  intros Hrows. unfold reader_getitem.
+  assert (Hread : forall ops' y, read_rows sem dsem rows d0 c0 ops' it = Some y -> wf y).
+  { intros ops' y. unfold read_rows. destruct (rows it) as [R|] eqn:Er; [|discriminate]. cbn [bind].
+    apply apply_ops_wf. unfold wf; cbn [a_nc a_rows]. apply Hrows. reflexivity. }
+  destruct cols as [cs|].
+  - destruct (is_whole it); [discriminate|].
+    destruct (read_rows sem dsem rows d0 c0 (ops ++ [OCols cs]) it) as [y|] eqn:E; [|discriminate].
+    intros H; injection H as <-. eapply Hread. exact E.
+  - destruct (read_rows sem dsem rows d0 c0 ops it) as [y|] eqn:E; [|discriminate].
+    intros H; injection H as <-. eapply Hread. exact E.
+Qed.
+End Shape.
